@@ -274,6 +274,15 @@ func runC20(c *run.Ctx) {
 			eval(urlSpecs, []byte(p.pre+q+p.post))
 		}
 	})
+	// tails after a well-formed prefix (what the normal form does with the end of an absolute or relative URL)
+	for _, pre := range urlPrefixes {
+		SeqsS(c, "urltail"+pre, urlTailFrags, 1, 3, func(u []byte, _ []int) {
+			q := htmlAttrQuote(pre + string(u))
+			for _, p := range pos {
+				eval(urlSpecs, []byte(p.pre+q+p.post))
+			}
+		})
+	}
 	nb := 4
 	if !c.Quick() {
 		nb = 5
@@ -293,8 +302,20 @@ func runC20(c *run.Ctx) {
 			eval(linkSpecs, []byte("<"+el+string(attrs)+">"))
 		})
 	}
+	// every combination of the five link options x rel admitted (plain / with pattern) or not x target admitted or not
+	var optSpecs []built
+	for _, b := range c11Specs() {
+		if inC20Class(b.V) {
+			optSpecs = append(optSpecs, b)
+		}
+	}
+	for _, el := range []string{"a", "area", "link"} {
+		SeqsS(c, "linkopts:"+el, la, 1, 2, func(attrs []byte, _ []int) {
+			eval(optSpecs, []byte("<"+el+string(attrs)+">"))
+		})
+	}
 	if c.Shard == 0 {
-		c.Notes["policies_in_class"] = float64(len(bs))
+		c.Notes["policies_in_class"] = float64(len(bs) + len(optSpecs))
 	}
 }
 
@@ -321,6 +342,7 @@ func min(a, b int) int {
 func linkAttrAlphabet() []string {
 	return []string{
 		` href="http://e.x/"`, ` href="//e.x/p"`, ` href="/local"`, ` href="#f"`, ` href="mailto:a@e.x"`, ` href="javascript:x"`, ` href=""`,
+		` href=" http://e.x/"`, // raw value unparseable (leading space), normalised value host-qualified
 		` rel=""`, ` rel="nofollow"`, ` rel="noreferrer"`, ` rel="noopener"`, ` rel="NOFOLLOW"`, ` rel="nofollowx"`, ` rel="xnofollow"`,
 		` rel="external nofollow"`, ` rel="a&#9;b"`, ` rel="xnoopener noreferrerx"`, ` rel="nofollow&nbsp;noreferrer&nbsp;noopener"`,
 		` target="_blank"`, ` target="_self"`, ` target="x"`, ` title="t"`,
